@@ -775,7 +775,41 @@ def form_rules(facts, rep, R2, rd, cf, ap, ftab, rrows=()):
                     odd.append(fmt(ct[0])[:40])
             else:
                 odd.append(fmt(ct[0])[:40])
-        if newlen == ("const", 4, "usize") and bytes_tested == ext_bytes and ext_bytes and not odd:
+        # the truncation may also be decided on the spec's own fields (a helper such as `is_extended()` expanded in
+        # place): then every field whose flag bit lives in bytes 4.. must be among the fields tested
+        ext_fields = set(k for k, v in ftab.items() if not k.startswith("#") and v[1] >= 32)
+        tested_fields = set()
+        def fields_behind(term, depth=0, seen=None):
+            """spec fields a boolean term depends on, through short-circuit chains (`a || b || ..` leaves a phi of
+            constants whose definitions sit under the guards that test the operands)"""
+            seen = seen if seen is not None else set()
+            for y in walk(term):
+                if y[0] == "field" and isinstance(y[2], str) and len(y) > 4 and y[4] == SPEC:
+                    tested_fields.add(y[2])
+                if y[0] == "var" and y[1] not in seen and depth < 40 and (cf.local_ty(y[1]) or "") == "bool":
+                    seen.add(y[1])
+                    for (bi_, si_, kind_, pay_) in cf.defs().get(y[1], []):
+                        dt_ = cf.term_of_rvalue(pay_["rv"]) if kind_ == "assign" else cf.term_of_call(pay_, bi_)
+                        fields_behind(dt_, depth + 1, seen)
+                        for (a2, s2, c2) in dom_guards(cf, bi_, cd):
+                            fields_behind(c2[0], depth + 1, seen)
+        for (a, s, c) in dom_guards(cf, bb, cd):
+            fields_behind(c[0])
+        if odd and tested_fields and newlen == ("const", 4, "usize") and not bytes_tested:
+            missing_f = sorted(ext_fields - tested_fields)
+            extra_f = sorted(f_ for f_ in tested_fields - ext_fields if f_ in ftab)
+            if missing_f and not extra_f and len(tested_fields & ext_fields) >= 3:
+                rep.violation(R2, cf.name, "short-form-fields", "the short record form is chosen by testing %d of the %d extended fields; `%s` is not tested, so a spec whose only extended field is that one is written in the short form and loses it" % (
+                    len(tested_fields & ext_fields), len(ext_fields), "`, `".join(missing_f)), cfw)
+                odd = []
+                newlen = None
+            elif not missing_f and not extra_f:
+                rep.ok(R2, {"short_form": "flags truncated to 4 bytes iff none of the %d extended fields is present" % len(ext_fields)})
+                odd = []
+                newlen = None
+        if newlen is None:
+            pass
+        elif newlen == ("const", 4, "usize") and bytes_tested == ext_bytes and ext_bytes and not odd:
             rep.ok(R2, {"short_form": "flags truncated to 4 bytes iff bytes %s are all zero" % sorted(bytes_tested)})
         elif odd and newlen == ("const", 4, "usize"):
             rep.inconc(R2, "short-form truncation is decided by a condition that is not recognised: %s" % odd[0])
